@@ -559,6 +559,11 @@ def method_of(I, obj, name):
         impl = I.lib.get("ndarray." + name)
         if impl is not None:
             return BM(obj, B("ndarray." + name, impl))
+        # a.any(), a.all(), a.std(), ... : the method form of the numpy function of the same name
+        if name in ("any", "all", "std", "var", "prod", "cumsum", "nonzero", "round", "clip", "ptp", "conj", "squeeze",
+                    "ravel", "tolist", "item") and ("numpy." + name) in I.lib:
+            fn = I.lib["numpy." + name]
+            return BM(obj, B("ndarray." + name, lambda I, self, *a, _f=fn, **k: _f(I, self, *a, **k)))
     if isinstance(obj, (set, frozenset)) and name in ("issubset", "issuperset", "isdisjoint", "union", "intersection",
                                                        "difference", "symmetric_difference", "copy"):
         # methods of concrete sets that do not modify the set (arguments: concrete iterables)
@@ -1751,7 +1756,7 @@ def install_numpy2(I):
         return SReal(AVG(lam, n), n <= 0)
     L["numpy.average"] = np_average
     L["numpy.mean"] = np_average
-    L["ndarray.mean"] = lambda I, self: np_average(I, self)
+    L["ndarray.mean"] = lambda I, self, **k: I.lib["numpy.mean"](I, self, **k)
 
     def np_std(I, a, **k):
         lam, n = _lam_of(a)
